@@ -61,14 +61,15 @@ template<class T, glm::qualifier Q> void only2(Case<T> const& cs) {
 template<class T, glm::qualifier Q> void only3(Case<T> const& cs) {
     typedef glm::vec<3, T, Q> V;
     V a = mk<3, T, Q>(cs.a), b = mk<3, T, Q>(cs.b), c = mk<3, T, Q>(cs.c);
+    const bool heavy = g_thorough || Q == glm::highp;      // the costly judgements: every qualifier in the thorough tier only
     { V r = glm::cross(a, b); V r2 = glm::cross(b, a); EV("cross", T, 3, Q).arg(a).arg(b).res(r).val("r2", r2).emit(); }
     { T r = glm::mixedProduct(a, b, c); EV("mixedProduct", T, 3, Q).arg(a).arg(b).arg(c).res(r).emit(); }
-    { V r = glm::triangleNormal(a, b, c); EV("triangleNormal", T, 3, Q).arg(a).arg(b).arg(c).res(r).emit(); }
-    { T r = glm::orientedAngle(a, b, c); T g = glm::angle(a, b); EV("orientedAngle3", T, 3, Q).arg(a).arg(b).arg(c).res(r).val("ang", g).emit(); }
+    if (heavy) { V r = glm::triangleNormal(a, b, c); EV("triangleNormal", T, 3, Q).arg(a).arg(b).arg(c).res(r).emit(); }
+    if (heavy) { T r = glm::orientedAngle(a, b, c); T g = glm::angle(a, b); EV("orientedAngle3", T, 3, Q).arg(a).arg(b).arg(c).res(r).val("ang", g).emit(); }
     { V r = glm::closestPointOnLine(a, b, c); EV("closestPointOnLine", T, 3, Q).arg(a).arg(b).arg(c).res(r).emit(); }
     { V r = glm::closestPointOnLine(c, a, b); EV("closestPointOnLine", T, 3, Q).arg(c).arg(a).arg(b).res(r).emit(); }
-    { V r = glm::orthonormalize(a, b); EV("orthonormalize2", T, 3, Q).arg(a).arg(b).res(r).emit(); }
-    { glm::mat<3, 3, T, Q> m(a, b, c); glm::mat<3, 3, T, Q> r = glm::orthonormalize(m); EV("orthonormalize3", T, 3, Q).arg(m).res(r).emit(); }
+    if (heavy) { V r = glm::orthonormalize(a, b); EV("orthonormalize2", T, 3, Q).arg(a).arg(b).res(r).emit(); }
+    if (heavy) { glm::mat<3, 3, T, Q> m(a, b, c); glm::mat<3, 3, T, Q> r = glm::orthonormalize(m); EV("orthonormalize3", T, 3, Q).arg(m).res(r).emit(); }
     { T r = glm::l1Norm(a);       EV("l1Norm", T, 3, Q).arg(a).res(r).emit(); }
     { T r = glm::l1Norm(a, b);    EV("l1Norm", T, 3, Q).arg(a).arg(b).res(r).emit(); }
     { T r = glm::l2Norm(a);       EV("l2Norm", T, 3, Q).arg(a).res(r).emit(); }
@@ -145,26 +146,38 @@ static const int NETA = int(sizeof(ETA) / sizeof(ETA[0]));
 template<class T> void fill_int(T* d, IV const& s, int sc) { for (int i = 0; i < 4; ++i) d[i] = dy<T>(s.v[i], sc); }
 template<class T> void fill_unit(T* d, UV const& s) { for (int i = 0; i < 4; ++i) d[i] = rat<T>(s.v[i], s.den); }
 
+// evenly spaced sub-sampling: picks about `target` of `total` items
+struct Sub { uint64_t total, target, i = 0; Sub(uint64_t tot, uint64_t tgt) : total(tot ? tot : 1), target(tgt > tot ? tot : tgt) {}
+             bool next() { bool r = ((i + 1) * target / total) != (i * target / total); ++i; return r; } };
+
 template<int L, class T> void gen_all(Rng& rng) {
-    const int S = std::is_same<T, float>::value ? 20 : 50;          // scale exponents: squares stay far from over/underflow
+    const bool F = std::is_same<T, float>::value;
+    const int S = F ? 12 : 50;          // scale exponents: squares and triple products stay far from over/underflow
+    const uint64_t M = g_thorough ? 10 : 1;
     uint64_t idx = 0;
     Case<T> cs{};
-    // (1) small integer vectors: every pair (strided for L = 4), third vector cycling; eta from the rational table
+    // (1) small integer vectors: pairs (sub-sampled), third vector cycling; eta from the rational table
     {
         std::vector<IV> P = int_pool(L);
         size_t n = P.size();
-        size_t stride = (L == 4) ? (g_thorough ? 3 : 23) : (L == 3 ? (g_thorough ? 1 : 3) : 1);
-        size_t cnt = 0;
+        Sub pick(n * n, 26 * M);
         for (size_t i = 0; i < n; ++i) for (size_t j = 0; j < n; ++j) {
-            if ((cnt++ % stride) != 0) continue;
-            fill_int(cs.a, P[i], 0); fill_int(cs.b, P[j], 0); fill_int(cs.c, P[(i * 7 + j * 3 + 1) % n], 0);
-            const int* e = ETA[(i + j) % NETA]; cs.eta = rat<T>(e[0], e[1]); cs.depth = unsigned(1 + (i + j) % 4);
+            if (!pick.next()) continue;
+            size_t jj = (j + i * 5) % n;                                   // decorrelate from the sampling stride
+            fill_int(cs.a, P[i], 0); fill_int(cs.b, P[jj], 0); fill_int(cs.c, P[(i * 7 + jj * 3 + 1) % n], 0);
+            const int* e = ETA[(i + jj) % NETA]; cs.eta = rat<T>(e[0], e[1]); cs.depth = unsigned(1 + (i + jj) % 4);
             run_case<L, T>(cs, idx++);
         }
         // exact ties of refract (k = 0 <=> dot = 0 and eta = 1) and of faceforward (dot = 0), TIR with exactly representable k
+        size_t ties = 0;
         for (size_t i = 0; i < n; ++i) for (size_t j = 0; j < n; ++j) {
             long d = 0; for (int k = 0; k < L; ++k) d += long(P[i].v[k]) * P[j].v[k];
-            if (d != 0 || (i + j) % 3 != 0) continue;
+            if (d == 0) ++ties;
+        }
+        Sub pick2(ties, 4 * M);
+        for (size_t i = 0; i < n; ++i) for (size_t j = 0; j < n; ++j) {
+            long d = 0; for (int k = 0; k < L; ++k) d += long(P[i].v[k]) * P[j].v[k];
+            if (d != 0 || !pick2.next()) continue;
             fill_int(cs.a, P[i], 0); fill_int(cs.b, P[j], 0); fill_int(cs.c, P[i], 0);
             for (int q = 0; q < 3; ++q) { cs.eta = q == 0 ? T(1) : q == 1 ? dy<T>(5, -2) : dy<T>(3, -2); cs.depth = 2; run_case<L, T>(cs, idx++); }
         }
@@ -172,7 +185,9 @@ template<int L, class T> void gen_all(Rng& rng) {
     // (2) scaled / parallel / antiparallel / nearly degenerate configurations
     {
         std::vector<IV> P = int_pool(L);
-        for (size_t i = 0; i < P.size(); i += (g_thorough ? 1 : 2)) {
+        Sub pick(P.size(), 6 * M);
+        for (size_t i = 0; i < P.size(); ++i) {
+            if (!pick.next()) continue;
             int sc = int(rng.below(2 * S + 1)) - S;
             fill_int(cs.a, P[i], sc);
             for (int k = 0; k < 4; ++k) { cs.b[k] = cs.a[k] * T(3); cs.c[k] = cs.a[k] * T(-2); }             // parallel, antiparallel
@@ -183,7 +198,7 @@ template<int L, class T> void gen_all(Rng& rng) {
             cs.eta = rat<T>(2, 3); cs.depth = 2; run_case<L, T>(cs, idx++);
         }
         // (1,0,0) vs (1,2^-20,0) and friends
-        for (int e = 4; e <= 22; e += (g_thorough ? 1 : 3)) {
+        for (int e = 4; e <= 22; e += (g_thorough ? 1 : 6)) {
             for (int k = 0; k < 4; ++k) { cs.a[k] = T(0); cs.b[k] = T(0); cs.c[k] = T(0); }
             cs.a[0] = T(1); cs.b[0] = T(1); if (L > 1) cs.b[1] = dy<T>(1, -e); else cs.b[0] = T(1) + dy<T>(1, -e);
             cs.c[L - 1] = T(1); cs.c[0] = cs.c[0] + dy<T>(1, -e);
@@ -195,26 +210,37 @@ template<int L, class T> void gen_all(Rng& rng) {
     {
         std::vector<UV> U = unit_pool(L);
         size_t n = U.size();
-        for (size_t i = 0; i < n; ++i) for (size_t j = 0; j < n; ++j) {
-            fill_unit(cs.a, U[i]); fill_unit(cs.b, U[j]); fill_unit(cs.c, U[(i + 2 * j + 1) % n]);
-            int ne = g_thorough ? NETA : 3;
-            for (int q = 0; q < ne; ++q) {
-                const int* e = ETA[(i * 5 + j * 3 + q * (g_thorough ? 1 : 5)) % NETA]; cs.eta = rat<T>(e[0], e[1]); cs.depth = unsigned(1 + (i + j + q) % 4);
+        Sub pick(n * n * NETA, 26 * M);
+        for (size_t i = 0; i < n; ++i) for (size_t j = 0; j < n; ++j) for (int q = 0; q < NETA; ++q) {
+            if (!pick.next()) continue;
+            size_t jj = (j + i * 3) % n; int qq = int((q + i + 2 * j) % NETA);
+            fill_unit(cs.a, U[i]); fill_unit(cs.b, U[jj]); fill_unit(cs.c, U[(i + 2 * jj + 1) % n]);
+            const int* e = ETA[qq]; cs.eta = rat<T>(e[0], e[1]); cs.depth = unsigned(1 + (i + jj + q) % 4);
+            run_case<L, T>(cs, idx++);
+            // the same directions one unit in the last place away (squared norms on both sides of 1)
+            if ((i + jj + q) % 4 == 0) {
+                cs.a[0] = std::nextafter(cs.a[0], T(2)); cs.b[L - 1] = std::nextafter(cs.b[L - 1], T(-2));
                 run_case<L, T>(cs, idx++);
             }
-            // the same directions one unit in the last place away (squared norms on both sides of 1)
-            if ((i + j) % 2 == 0) {
-                cs.a[0] = std::nextafter(cs.a[0], T(2)); cs.b[L - 1] = std::nextafter(cs.b[L - 1], T(-2));
-                cs.eta = rat<T>(4, 3); run_case<L, T>(cs, idx++);
+        }
+        // Snell pairs with an exactly rational refracted ray: I = (s, -c) in the plane of the first two axes (L >= 2), N = axis
+        if (L >= 2) {
+            const int PY[][3] = { {3, 4, 5}, {4, 3, 5}, {5, 12, 13}, {12, 5, 13}, {7, 24, 25}, {8, 15, 17} };
+            Sub pick3(6 * NETA, 8 * M);
+            for (auto& t : PY) for (int q = 0; q < NETA; ++q) {
+                if (!pick3.next()) continue;
+                for (int k = 0; k < 4; ++k) { cs.a[k] = T(0); cs.b[k] = T(0); cs.c[k] = T(0); }
+                cs.a[0] = rat<T>(t[0], t[2]); cs.a[1] = rat<T>(-t[1], t[2]); cs.b[1] = T(1); cs.c[L - 1] = T(1);
+                cs.eta = rat<T>(ETA[q][0], ETA[q][1]); cs.depth = 2; run_case<L, T>(cs, idx++);
             }
         }
     }
     // (4) random dyadic vectors k / 2^j at a random common scale; eta random in (0, 4]
     {
-        int N = (g_thorough ? 4000 : 400);
+        int N = int(10 * M);
         for (int it = 0; it < N; ++it) {
             int sc = (it % 3 == 0) ? 0 : int(rng.below(2 * S + 1)) - S;
-            int bits = 1 + int(rng.below(std::is_same<T, float>::value ? 20 : 40));
+            int bits = 1 + int(rng.below(F ? 20 : 40));
             auto rv = [&](T* d) { for (int k = 0; k < 4; ++k) { long long m = (long long)(rng.below(2ull << bits)) - (1ll << bits); d[k] = dy<T>(m, sc - bits + int(rng.below(3))); } };
             rv(cs.a); rv(cs.b); rv(cs.c);
             if (it % 7 == 0) cs.c[int(rng.below(L))] = T(0);
@@ -222,7 +248,7 @@ template<int L, class T> void gen_all(Rng& rng) {
             run_case<L, T>(cs, idx++);
         }
         // random directions normalised by GLM itself (inputs of the angle functions) with a random eta
-        for (int it = 0; it < N / 2; ++it) {
+        for (int it = 0; it < N; ++it) {
             auto rv = [&](T* d) { glm::vec<L, T, glm::highp> v; bool nz = false; for (int k = 0; k < L; ++k) { long long m = (long long)(rng.below(2001)) - 1000; v[k] = T(m); nz = nz || m != 0; }
                                   if (!nz) v[0] = T(1); v = glm::normalize(v); for (int k = 0; k < 4; ++k) d[k] = k < L ? v[k] : T(0); };
             rv(cs.a); rv(cs.b); rv(cs.c);
@@ -233,15 +259,14 @@ template<int L, class T> void gen_all(Rng& rng) {
     // (5) outside the documented domain (constrain nothing): non-finite and extreme magnitudes
     {
         const T big = std::numeric_limits<T>::max(), tiny = std::numeric_limits<T>::denorm_min(), inf = std::numeric_limits<T>::infinity();
-        const T specials[] = { big, tiny, inf, -inf, std::numeric_limits<T>::quiet_NaN() };
+        const T specials[] = { big, tiny, inf, std::numeric_limits<T>::quiet_NaN() };
         for (T s : specials) {
             for (int k = 0; k < 4; ++k) { cs.a[k] = T(1); cs.b[k] = T(k + 1); cs.c[k] = T(-1); }
-            cs.a[0] = s; cs.eta = T(1); cs.depth = 2; run_case<L, T>(cs, idx++);
-            cs.a[0] = T(1); cs.b[L - 1] = s; run_case<L, T>(cs, idx++);
+            cs.a[0] = s; cs.eta = T(1); cs.depth = 2; run_case<L, T>(cs, idx += 5);
+            if (g_thorough) { cs.a[0] = T(1); cs.b[L - 1] = s; run_case<L, T>(cs, idx += 5); }
         }
         for (int k = 0; k < 4; ++k) { cs.a[k] = T(1); cs.b[k] = T(0); cs.c[k] = T(1); }
-        cs.b[0] = T(1); cs.eta = T(-1); run_case<L, T>(cs, idx++);            // eta <= 0
-        cs.eta = T(0); run_case<L, T>(cs, idx++);
+        cs.b[0] = T(1); cs.eta = T(-1); run_case<L, T>(cs, idx += 5);            // eta <= 0
     }
 }
 
